@@ -11,7 +11,7 @@ MCWeights == {1}
 UE == {<<r, 1>> : r \in MCRows}
 MCUBatches == {<<e1, e2>> : e1 \in UE, e2 \in UE}
 MCWBatches == {<< <<<<3, 3>>, 2>>, <<<<5, 9>>, 3>> >>, << <<<<3, 3, 3>>, 2>>, <<<<3, 5, 9>>, 3>>, <<<<3, 7, 9>>, 1>> >>}
-MCOps == {"FromArrays", "Construct", "Project", "ProjectAgain", "ProjectRefused", "Transpose", "Accumulate", "DropD"}
+MCOps == {"FromArrays", "FromArraysM", "Construct", "Project", "ProjectAgain", "ProjectRefused", "Transpose", "Accumulate", "DropD"}
 MCScaleArgs == {<<2, 1>>}
 MCCellArgs == {}
 MCRetCands == {NoneRet}
